@@ -37,6 +37,8 @@ def gen_data_family(rng, n_roots=(1, 2)):
     n_ch = rng.pick([1, 1, 2, 3, 4, 5])
     cu = rng.sample(range(0, 31), n_ch)
     ch_desc = {'roi': gen.gen_grouping(rng, n_ch), 'name': {'values': ['ch%d' % u for u in cu], 'container': rng.pick(['list', 'array'])}}
+    if rng.chance(0.15):
+        ch_desc['pos3'] = {'values': [[float(u), u + 1.0, u + 2.0] for u in cu], 'container': 'array'}
     for _ in range(rng.randint(*n_roots)):
         temporal = rng.chance(0.55)
         n_obs = rng.pick([1, 2, 3, 4, 6, 8, 12]) if not rng.chance(0.08) else rng.randint(20, 40)
@@ -54,6 +56,9 @@ def gen_data_family(rng, n_roots=(1, 2)):
                 'ch_desc': ch_desc, 'time_desc': {}, 'order': rng.pick(['F', 'S']) if rng.chance(0.3) else 'C',
                 'dtype': 'float32' if rng.chance(0.12) else 'float64',
                 'descriptors': {'subj': rng.pick(['s1', 's2']), 'sess': rng.pick([1, 2])}}
+        if rng.chance(0.15):
+            # descriptors with one *row* per item (an (onset, duration) pair per observation, a position per channel)
+            spec['obs_desc']['xy'] = {'values': [[float(u), u + 0.5] for u in ou], 'container': 'array'}
         if rng.chance(0.15):
             # the user's own descriptor called 'index' (trial numbers): an ordinary descriptor for datasets
             spec['obs_desc']['index'] = {'values': [100 + 3 * i for i in range(n_obs)], 'container': rng.pick(['list', 'array'])}
@@ -772,6 +777,8 @@ class DataOps:
             return False
         if any(tok[1] is not None for tok in src.sem['rows'] + src.sem['cols']):
             return False     # float time columns would be taken for channels by from_df: not admissible
+        if any(np.asarray(v, dtype=object).ndim > 1 for v in list(src.obj.obs_descriptors.values()) + list(src.obj.channel_descriptors.values())):
+            return False     # a table column holds one scalar per row: row-valued descriptors have no DataFrame form
         if not o['flag'] and (any(isinstance(x, (float, np.floating)) for v in src.obj.obs_descriptors.values() for x in v)
                               or any(isinstance(v, (float, np.floating)) for v in src.obj.descriptors.values())):
             return False     # from_df(channels=None) takes every float column for a channel: float labels not admissible
